@@ -48,6 +48,13 @@ Theorem C06_map_desc_id_return : forall d r, parse_return d = Ok r -> map_desc (
 Proof. exact map_desc_id_return. Qed.
 Print Assumptions C06_map_desc_id_return.
 
+(* ALL strings, well-formed or not: the scanner succeeds exactly on the strings that split into
+   copied non-`L` characters and segments `L` name `;` with a non-empty name free of `;`, and then
+   replaces exactly those names (everything else, including malformed input, is Err) *)
+Theorem C06_map_desc_scan : forall f s o, map_desc f s = Ok o <-> Scan f s o.
+Proof. exact map_desc_scan. Qed.
+Print Assumptions C06_map_desc_scan.
+
 (* two rewrites in a row compose (needed for X -> Y -> X) *)
 Theorem C06_map_desc_twice_field : forall f g d t, range_valid f -> parse_field d = Ok t ->
   map_desc f d = Ok (print_ty (map_ty f t)) /\
